@@ -12,7 +12,7 @@ META = dict(
     rule=('states = (wrapper, type) with wrapper in {tainted, tainted_volatile, tainted_opaque, sandbox_callback, app_pointer, tainted_boolean_hint, tainted_int_hint} and '
           'type over the base types (quick 12, thorough 27: every integer type, bool, float, double, unscoped/scoped enum, object pointers, pointer to pointer, function '
           'pointer, fixed arrays incl. 2-D and array of pointers, registered struct); transitions = forms: unary/binary/compound/increment operators with plain, nullptr, '
-          'tainted, tainted_volatile, boolean-hint, int-hint and same-type right operands, plain-on-the-left forms, indexing, dereference, address-of, RLBox casts, opaque conversion, and '
+          'tainted, tainted_volatile, boolean-hint, int-hint and same-type right operands, plain-on-the-left forms, the null literal on the left of comparisons, indexing, dereference, address-of, RLBox casts, opaque conversion, and '
           '50 conversion contexts (the private raw accessors with and without a sandbox argument, copy/direct/list initialisation of plain variables, assignment, argument passing, return, if/while/for/do/switch/?: conditions, '
           'subscript with a wrapped index, pointer arithmetic with a wrapped offset, static/functional/C-style/reinterpret casts), and the library routines over '
           'sandbox memory (memcmp with tainted / tainted_volatile / raw operands must yield exactly tainted_int_hint; memcpy, memset, grant-access copies, invocation results stay wrapped). One probe program per (state, form), '
@@ -75,6 +75,9 @@ def forms(tier):
     for l in (['pi', 'pd', 'pp', 'pb'] if th else ['pi', 'pp']):
         for op in ((ARITH_OPS_T + CMP_OPS) if th else ['+', '-', '==', '<', '&&']):
             F.append(('lbin:%s%sx' % (l, op), 'CMP:plainleft' if op in CMP_OPS else 'EXPR', 'VERIF_EXPR(%s %s x)' % (l, op)))
+    # the null literal as LEFT operand (a free operator taking nullptr_t on the left would see every wrapper kind)
+    for op in (CMP_OPS if th else ['==', '!=', '<']):
+        F.append(('lbin:nullptr%sx' % op, 'CMP:nullptr', 'VERIF_EXPR(nullptr %s x)' % op))
     for op in (['+', '-', '*', '/', '%', '^', '&', '|', '<<', '>>'] if th else ['+', '-', '<<']):
         for r in ['pi', 'ti']:
             F.append(('cmpd:x%s=%s' % (op, r), 'EXPR', 'VERIF_EXPR(x %s= %s)' % (op, r)))
@@ -204,7 +207,7 @@ def judge(wrapper, t, fid, kind, accepted, diag):
         r = kind.split(':')[1]
         involves_volatile = wrapper == 'tainted_volatile' or r in ('tvi', 'hb', 'hi') or wrapper in ('tainted_boolean_hint', 'tainted_int_hint')
         if plain:
-            if ptr_null_test_ok and r == 'nullptr' and fid[4:].startswith(('x==', 'x!=')):
+            if ptr_null_test_ok and r == 'nullptr' and (fid[4:].startswith(('x==', 'x!=')) or fid.startswith(('lbin:nullptr==', 'lbin:nullptr!='))):
                 return None
             return ('plain-comparison-result', 'comparison %s yields a plain value' % fid)
         if accepted and involves_volatile:
